@@ -262,9 +262,9 @@ fn norms(st: &mut Stats, rng: &mut Rng) {
 pub fn run(ctx: &Ctx) -> Report {
     let nprod = 9u64 * 9 * 9;
     let nshape = 81u64;
-    let nhist = ctx.vol(3000, 80_000);
-    let nnorm = ctx.vol(300, 5000);
-    let reps = if ctx.quick() { 5 } else { 40 };
+    let nhist = ctx.vol(12_000, 1_500_000);
+    let nnorm = ctx.vol(1000, 50_000);
+    let reps = if ctx.quick() { 20 } else { 1000 };
     let stats = par_run(ctx, TAG, nprod + nshape + nhist + nnorm, |u, rng, st| {
         if u < nprod { let (r, k, c) = ((u / 81) as usize, ((u / 9) % 9) as usize, (u % 9) as usize); for _ in 0..reps { products(st, rng, r, k, c); } }
         else if u < nprod + nshape { let v = u - nprod; for _ in 0..reps { shape_ops(st, rng, (v / 9) as usize, (v % 9) as usize); } }
@@ -272,7 +272,7 @@ pub fn run(ctx: &Ctx) -> Report {
         else { for _ in 0..40 { norms(st, rng); } }
     });
     let mut rep = Report::new(stats,
-        "exhaustive shapes: A(r x k)*B(k x c) and A*v for all (r,k,c) in [0,8]^3; all unary/binary operators, compound assignments, transpose (both), eye, clone, new, clear, fills (every band offset -r-1..c+1), get/set/fill row/col for every index, swap_rows every pair, delete_row every row, resize to every (r',c') in [0,8]^2 for all (r,c) in [0,8]^2, random Rat entries (15 draws quick, 120 thorough); random histories (<=40 steps of 26 editing operations) in lock step with a Vec<Vec<Rat>> model comparing shape, every entry, numel and private storage length after every step; f64 norms on integer/half-integer data. Every case is non-trivial (a judged operation on generic data); distinct = distinct (shape, draw) hashes");
+        "exhaustive shapes: A(r x k)*B(k x c) and A*v for all (r,k,c) in [0,8]^3; all unary/binary operators, compound assignments, transpose (both), eye, clone, new, clear, fills (every band offset -r-1..c+1), get/set/fill row/col for every index, swap_rows every pair, delete_row every row, resize to every (r',c') in [0,8]^2 for all (r,c) in [0,8]^2, random Rat entries (60 draws quick, 3000 thorough); random histories (<=40 steps of 26 editing operations) in lock step with a Vec<Vec<Rat>> model comparing shape, every entry, numel and private storage length after every step; f64 norms on integer/half-integer data. Every case is non-trivial (a judged operation on generic data); distinct = distinct (shape, draw) hashes");
     rep.assumptions = vec!["only conformable/in-range calls are made here (mismatches belong to C20)".into(), "norm_p/norm_frob relative tolerance 16*(r*c+2)*u; norm_1/inf/max exact on this data".into()];
     rep.min_nontrivial = 1000;
     rep.exhaustive = false;
